@@ -72,9 +72,25 @@ def flush_triple(draw):
 
 
 @st.composite
+def renumber(draw):
+    """A host (or instance) announces two rrsets under one owner name, then announces both again with other rdata and the
+    cache-flush bit, the two records adjacent in the datagram - how every responder lays out A+AAAA or SRV+TXT."""
+    p1, p2 = draw(st.sampled_from([(0, 1), (1, 0), (4, 5), (5, 4), (4, 6), (5, 6), (0, 8), (1, 8)]))
+    sp = draw(st.integers(0, 3))
+    ttl = draw(st.sampled_from([120, 4500]))
+    first = [{'pick': p, 'from': 'any', 'var': 0, 'ttl': ttl, 'flush': draw(st.booleans()), 'sp': sp} for p in (p1, p2)]
+    second = [{'pick': p, 'from': 'any', 'var': 1, 'ttl': draw(st.sampled_from([120, 120, 0])), 'flush': True, 'sp': draw(st.integers(0, 3))}
+              for p in (p1, p2)]
+    if draw(st.integers(0, 3)) == 0:
+        second.insert(draw(st.integers(0, 2)), draw(rec_st))
+    gap = draw(st.sampled_from([1, 999, 1001, 1500, 5000, 5000]))
+    return [['resp', first], ['tick', gap], ['resp', second]]
+
+
+@st.composite
 def history(draw, max_ops: int):
     chunks = draw(st.lists(st.one_of(resp_op().map(lambda o: [o]), resp_op().map(lambda o: [o]), tick_op.map(lambda o: [o]),
-                                     flush_triple()), min_size=1, max_size=max_ops // 2))
+                                     flush_triple(), renumber()), min_size=1, max_size=max_ops // 2))
     return [op for ch_ in chunks for op in ch_][:max_ops]
 
 
